@@ -160,7 +160,7 @@ func init() {
 		Rule: "(value, target type) pairs over nested lists/objects/any-objects/options/scalars (depth <= 3 quick / 4 thorough): conforming by construction, conforming after a permitted scalar conversion, and near misses at a generator-known path (wrong leaf kind, missing/extra field, wrong element, none/null where not allowed, list where object ...); three delivery routes: (api) DeepCast in both value libraries with allowCasts true/false, (json) TypeAwareUnmarshalValue, (prog) the value arrives as 'any' from a host function or parse_json and crosses 'as T' / an annotated let inside try/catch followed by typed uses of every leaf, on both backends, (host) SpawnSync with conforming / non-conforming arguments and declared return types; own oracle predicates (convertible / conforms) written from the property; exhaustive near-miss table of 20 types x 16 near-miss kinds; non-trivial = type depth >= 2 or a near miss at depth >= 1; distinct by value + type + route",
 		Jobs: []Job{
 			{Name: "table", Run: "^TestTableNearMiss$", Shards: [2]int{2, 4}},
-			{Name: "anytargets", Run: "^TestTableAnyTargets$", Shards: [2]int{1, 1}},
+			{Name: "anytargets", Run: "^(TestTableAnyTargets|TestTableAdmittedSlots)$", Shards: [2]int{1, 1}},
 			{Name: "api", Run: "^TestAPI$", Checks: [2]int{40000, 200000}, Shards: [2]int{2, 8}},
 			{Name: "json", Run: "^TestJSON$", Checks: [2]int{20000, 100000}, Shards: [2]int{2, 8}},
 			{Name: "prog", Run: "^TestProg$", Checks: [2]int{600, 3000}, Shards: [2]int{6, 16}},
